@@ -153,6 +153,11 @@ func C02(p *engine.Prog, r *engine.Report) {
 		}
 	}
 	c01R6(p, r, "C02-R5", ents)
+	// ---------------- R6: the builder keeps working on its check state after a refused transaction, the validator aborts:
+	// a refusal must leave that state untouched (every mutation behind the epoch and nonce gates)
+	importRules(p, r, "C06", map[string]string{"C06-R1": "C02-R6"})
+	// ---------------- R7: flags the proposer may choose are chosen under the validator's conditions
+	offlineFlagsPeriodRule(p, r, "C02-R7")
 }
 
 func c02R2(p *engine.Prog, r *engine.Report, ft, pt *ssa.Function) {
